@@ -69,7 +69,8 @@ class C20(Prop):
                 base["out_slash"] = True
             out.append(dict(base, route="kw", kw_str=g % 2 == 0))
             out.append(dict(base, route="config", announce_key=("announce", "tracker")[g % 2],
-                            config_where=("path", "cwd", "home", "homeconfig")[(g // 2) % 4]))
+                            config_where=("path", "cwd", "home", "homeconfig")[(g // 2) % 4],
+                            config_layout=("plain", "blank", "keyline")[g % 3]))
             out.append(dict(base, route="config", explicit_false=True))     # switches spelled out as false
             if "G" not in S:        # the interactive dialog has no question for alignment
                 out.append(dict(base, route="interactive"))
@@ -114,7 +115,8 @@ class C20(Prop):
         if case["route"] == "cli" and case["shape"] and case["shape"][0] == "PATH":
             return None
         return (case["group"], case["route"], tuple(case.get("shape", [])), case.get("announce_key"),
-                case.get("explicit_false"), case.get("config_where"), case.get("spelling"), case.get("kw_str"))
+                case.get("explicit_false"), case.get("config_where"), case.get("spelling"), case.get("kw_str"),
+                case.get("config_layout"))
 
     def signature(self, case, rec, clause):
         return "%s/%s" % (clause, (case or {}).get("route", "?"))
